@@ -372,3 +372,185 @@ func H_UnicodeEscape() {
 	}
 	vf.Reach("decoded")
 }
+
+// ---- index / attribute / splat / for over small collections with symbolic elements
+
+func elemStr() string {
+	s := vf.Str(1)
+	vf.Assume(s[0] >= 'a' && s[0] <= 'c')
+	return s
+}
+
+type expect struct {
+	err bool
+	v   cty.Value
+}
+
+func ok(v cty.Value) expect { return expect{v: v} }
+
+var bad = expect{err: true}
+
+// H_Collections: the result (value, or error) of index, attribute, legacy index,
+// splat and for expressions over collections whose elements are symbolic strings,
+// against values the specification assigns (computed here over Go slices/maps).
+func H_Collections() {
+	e0, e1 := elemStr(), elemStr()
+	s0, s1 := cty.StringVal(e0), cty.StringVal(e1)
+	ctx := &hcl.EvalContext{Variables: map[string]cty.Value{
+		"l": cty.ListVal([]cty.Value{s0, s1}),
+		"m": cty.MapVal(map[string]cty.Value{"a": s0, "b": s1}),
+		"t": cty.TupleVal([]cty.Value{s0, cty.True}),
+		"o": cty.ObjectVal(map[string]cty.Value{"a": s0, "b": cty.True}),
+		"z": cty.NullVal(cty.String),
+		"one": s0,
+	}}
+	type tc struct {
+		src  string
+		want func() expect
+	}
+	eq := e0 == e1
+	cases := []tc{
+		{`l[0]`, func() expect { return ok(s0) }}, {`l[1]`, func() expect { return ok(s1) }}, {`l[2]`, func() expect { return bad }},
+		{`l[-1]`, func() expect { return bad }}, {`l["1"]`, func() expect { return ok(s1) }}, {`l[z]`, func() expect { return bad }},
+		{`l.0`, func() expect { return ok(s0) }}, {`l[0.5]`, func() expect { return bad }},
+		{`m["a"]`, func() expect { return ok(s0) }}, {`m.b`, func() expect { return ok(s1) }}, {`m["c"]`, func() expect { return bad }}, {`m[0]`, func() expect { return bad }},
+		{`t[0]`, func() expect { return ok(s0) }}, {`t[1]`, func() expect { return ok(cty.True) }}, {`t[2]`, func() expect { return bad }},
+		{`o.a`, func() expect { return ok(s0) }}, {`o["b"]`, func() expect { return ok(cty.True) }}, {`o.c`, func() expect { return bad }},
+		{`one.a`, func() expect { return bad }}, {`one[0]`, func() expect { return bad }},
+		{`l[*]`, func() expect { return ok(cty.ListVal([]cty.Value{s0, s1})) }},
+		{`l.*`, func() expect { return ok(cty.ListVal([]cty.Value{s0, s1})) }},
+		{`t[*]`, func() expect { return ok(cty.TupleVal([]cty.Value{s0, cty.True})) }},
+		{`one[*]`, func() expect { return ok(cty.TupleVal([]cty.Value{s0})) }},
+		{`z[*]`, func() expect { return ok(cty.EmptyTupleVal) }},
+		{`[o, o][*].a`, func() expect { return ok(cty.TupleVal([]cty.Value{s0, s0})) }},
+		{`[for x in l : x]`, func() expect { return ok(cty.TupleVal([]cty.Value{s0, s1})) }},
+		{`[for i, x in l : i]`, func() expect { return ok(cty.TupleVal([]cty.Value{cty.NumberIntVal(0), cty.NumberIntVal(1)})) }},
+		{`[for k, v in m : "${k}${v}"]`, func() expect {
+			return ok(cty.TupleVal([]cty.Value{cty.StringVal("a" + e0), cty.StringVal("b" + e1)}))
+		}},
+		{`{for k, v in m : k => v}`, func() expect { return ok(cty.ObjectVal(map[string]cty.Value{"a": s0, "b": s1})) }},
+		{`[for x in l : x if x == one]`, func() expect {
+			if eq {
+				return ok(cty.TupleVal([]cty.Value{s0, s1}))
+			}
+			return ok(cty.TupleVal([]cty.Value{s0}))
+		}},
+		{`{for x in l : x => 1}`, func() expect {
+			if eq {
+				return bad // duplicate key without grouping
+			}
+			return ok(cty.ObjectVal(map[string]cty.Value{e0: cty.NumberIntVal(1), e1: cty.NumberIntVal(1)}))
+		}},
+		{`{for i, x in l : x => i...}`, func() expect {
+			if eq {
+				return ok(cty.ObjectVal(map[string]cty.Value{e0: cty.TupleVal([]cty.Value{cty.NumberIntVal(0), cty.NumberIntVal(1)})}))
+			}
+			return ok(cty.ObjectVal(map[string]cty.Value{e0: cty.TupleVal([]cty.Value{cty.NumberIntVal(0)}), e1: cty.TupleVal([]cty.Value{cty.NumberIntVal(1)})}))
+		}},
+		{`[for x in one : x]`, func() expect { return bad }},
+		{`one == l[1] ? "same" : "diff"`, func() expect {
+			if eq {
+				return ok(cty.StringVal("same"))
+			}
+			return ok(cty.StringVal("diff"))
+		}},
+	}
+	ci := pick(len(cases))
+	c := cases[ci]
+	vf.Observe("case", c.src)
+	expr, diags := hclsyntax.ParseExpression([]byte(c.src), "k.hcl", hcl.InitialPos)
+	vf.Assert(!diags.HasErrors(), "collection-expression-parses")
+	if diags.HasErrors() {
+		return
+	}
+	got, vdiags := expr.Value(ctx)
+	want := c.want()
+	vf.Assert(vdiags.HasErrors() == want.err, "error-exactly-when-the-specification-says-so: "+c.src)
+	if !want.err && !vdiags.HasErrors() {
+		vf.Assert(got.RawEquals(want.v), "value-per-specification: "+c.src)
+		vf.Reach("value")
+	} else {
+		vf.Reach("error")
+	}
+}
+
+func isSpaceByte(c byte) bool { return c == ' ' || c == '\t' || c == '\n' || c == '\r' }
+
+// H_Strip: strip markers remove all whitespace of the ADJACENT template literal, and
+// only that (spec "Template Literals"); literals are symbolic over {space, tab, LF, y}.
+func H_Strip() {
+	n := vf.Param("n", 2)
+	lit := func() []byte {
+		b := vf.Bytes(n)
+		for _, c := range b {
+			vf.Assume(c == ' ' || c == '\t' || c == '\n' || c == 'y')
+		}
+		return b
+	}
+	l1, l2 := lit(), lit()
+	left, right := vf.Bool(), vf.Bool()
+	src := append([]byte{}, l1...)
+	if left {
+		src = append(src, "${~ "...)
+	} else {
+		src = append(src, "${ "...)
+	}
+	src = append(src, `" X "`...)
+	if right {
+		src = append(src, " ~}"...)
+	} else {
+		src = append(src, " }"...)
+	}
+	src = append(src, l2...)
+	w1, w2 := l1, l2
+	if left {
+		for len(w1) > 0 && isSpaceByte(w1[len(w1)-1]) {
+			w1 = w1[:len(w1)-1]
+		}
+	}
+	if right {
+		for len(w2) > 0 && isSpaceByte(w2[0]) {
+			w2 = w2[1:]
+		}
+	}
+	want := string(w1) + " X " + string(w2)
+	// finding of record: only the literal TOKEN next to the marker (one line) is trimmed
+	lineTrimmed := func() string {
+		a, b := l1, l2
+		if left {
+			// the literal token next to the marker: the text after the last newline, or the
+			// last line including its newline when l1 ends with one
+			end := len(a)
+			if end > 0 && a[end-1] == '\n' {
+				end--
+			}
+			for end > 0 && isSpaceByte(a[end-1]) && a[end-1] != '\n' {
+				end--
+			}
+			a = a[:end]
+		}
+		if right {
+			st := 0
+			for st < len(b) && isSpaceByte(b[st]) && b[st] != '\n' {
+				st++
+			}
+			if st < len(b) && b[st] == '\n' {
+				st++
+			}
+			b = b[st:]
+		}
+		return string(a) + " X " + string(b)
+	}()
+	sig := lineTrimmed != want
+	expr, diags := hclsyntax.ParseTemplate(src, "s.tmpl", hcl.InitialPos)
+	vf.Assert(!diags.HasErrors(), "template-with-strip-markers-parses")
+	if diags.HasErrors() {
+		return
+	}
+	got, vdiags := expr.Value(nil)
+	vf.Assert(!vdiags.HasErrors() && got.Type() == cty.String, "template-evaluates")
+	if !vdiags.HasErrors() && got.Type() == cty.String {
+		vf.AssertKnown(got.AsString() == want, "strip-markers-trim-exactly-the-adjacent-literal", "C01-strip-marker-stops-at-line", sig)
+	}
+	vf.Reach("done")
+}
